@@ -130,6 +130,41 @@ func runC13(c *Ctx) {
 				if _, isAdd := sum.(*ssa.BinOp); !isAdd {
 					sum, other, mirrored = bo.X, bo.Y, true
 				}
+				// ... or X op r.end, where the record keeps the (exclusive) end of the range in a field of its own
+				endField := func(v ssa.Value) bool {
+					switch x := v.(type) {
+					case *ssa.Field:
+						if st, ok := x.X.Type().Underlying().(*types.Struct); ok {
+							return strings.EqualFold(st.Field(x.Field).Name(), "end")
+						}
+					case *ssa.UnOp:
+						if fa, ok := x.X.(*ssa.FieldAddr); ok {
+							return strings.EqualFold(core.FieldName(fa), "end")
+						}
+					}
+					return false
+				}
+				if endField(bo.Y) || endField(bo.X) {
+					op := bo.Op
+					if endField(bo.X) && !endField(bo.Y) {
+						switch op {
+						case token.GTR:
+							op = token.LSS
+						case token.GEQ:
+							op = token.LEQ
+						case token.LSS:
+							op = token.GTR
+						case token.LEQ:
+							op = token.GEQ
+						}
+					}
+					if op == token.LSS || op == token.LEQ || op == token.GTR || op == token.GEQ {
+						n7++
+						c.R.Check(op == token.LSS || op == token.GEQ, "R13.7", "uniquify: a match is contained in an accepted one only if it starts before that one's end (exclusive)", p.Pos(bo.Pos()),
+							"Offset is compared strictly with the recorded end", "the comparison with the recorded end is not strict: the end is exclusive, so a verbatim copy that starts exactly where another reported match ends is removed as if it were contained in it")
+					}
+					continue
+				}
 				add, isAdd := sum.(*ssa.BinOp)
 				if !isAdd || add.Op != token.ADD || other == nil {
 					continue
